@@ -153,7 +153,7 @@ func genCase(t *rapid.T) Case {
 	c.StartEpoch = rapid.SampledFrom([]uint64{1, 3, 7, 20}).Draw(t, "startEpoch")
 	c.Strategy = rapid.SampledFrom([]string{"first", "best"}).Draw(t, "strategy")
 	c.RealScheduler = rapid.IntRange(0, 2).Draw(t, "realScheduler") == 0
-	c.Providers = rapid.IntRange(3, 4).Draw(t, "providers")
+	c.Providers = rapid.IntRange(2, 4).Draw(t, "providers")
 	c.NodeMix = rapid.SampledFrom([]string{"healthy", "late", "same-instant", "some-never", "mixed", "mixed"}).Draw(t, "nodeMix")
 	c.HeadPattern = rapid.SampledFrom([]string{"every-slot", "every-slot", "gaps", "gaps", "none"}).Draw(t, "heads")
 	c.GapEvery = rapid.Uint64Range(3, 9).Draw(t, "gapEvery")
@@ -216,9 +216,11 @@ type runner struct {
 	sink   *sink
 	rs     *realSched
 	roots  []any // services whose bookkeeping is measured
-	parked map[int]string
-	// preParked: goroutines already parked when the run began
-	preParked map[int]string
+	parked                      int // goroutines parked on a channel send in vouch code since the run began
+	lastCount, sameCount, dumps int
+	// preParked: goroutines already parked when the run began (ids for the stack dump, counts for the profile)
+	preParked      map[int]string
+	preParkedCount map[string]int
 	ctx    context.Context
 
 	series   map[string][]int // container -> size at the end of each epoch of the run
@@ -366,25 +368,40 @@ func (r *runner) extraGoroutines() int {
 	}
 	if r.w.Executing() > 0 || r.pool.inflight.Load() > 0 {
 		// a strategy call may be in progress: a sender blocked now may still be received from
-		return n + len(r.parked)
+		return n + r.parked
 	}
-	excess := runtime.NumGoroutine() - (r.w.Baseline() + n)
+	count := runtime.NumGoroutine()
+	excess := count - (r.w.Baseline() + n)
 	switch {
 	case excess <= 0:
-		r.parked = map[int]string{}
-	case excess != len(r.parked):
-		r.parked = r.newParked()
+		r.parked = 0
+	case excess != r.parked:
+		// Something more than the known parked goroutines exists.  Short-lived goroutines
+		// of vouch are the common reason: look at the stacks (expensive once thousands of
+		// goroutines are parked) only when the same count has been seen a few times in a row.
+		if count == r.lastCount {
+			r.sameCount++
+		} else {
+			r.lastCount, r.sameCount = count, 0
+		}
+		if r.sameCount >= 4 {
+			r.parked = r.newParked()
+			r.sameCount = 0
+			r.dumps++
+		}
 	}
-	return n + len(r.parked)
+	return n + r.parked
 }
 
 // newParked: goroutines parked on a channel send inside vouch code since the run began.
-func (r *runner) newParked() map[int]string {
-	res := parkedSenders()
-	for id := range r.preParked {
-		delete(res, id)
+func (r *runner) newParked() int {
+	total := 0
+	for fn, n := range parkedSenderCounts() {
+		if d := n - r.preParkedCount[fn]; d > 0 {
+			total += d
+		}
 	}
-	return res
+	return total
 }
 
 func (r *runner) headsIn(epochInRun uint64) bool {
@@ -477,7 +494,7 @@ func (r *runner) checkPending() {
 				states[g.state+"|"+g.fn+"|"+g.top]++
 			}
 			ev.Note("not-quiescent-diagnostic", fmt.Sprintf("goroutines=%d baseline=%d held=%d jobs=%d parked=%d inflight=%d executing=%d active=%s all=%v",
-				runtime.NumGoroutine(), r.w.Baseline(), r.pool.held.Load(), jobs, len(r.parked), r.pool.inflight.Load(), r.w.Executing(), what, states))
+				runtime.NumGoroutine(), r.w.Baseline(), r.pool.held.Load(), jobs, r.parked, r.pool.inflight.Load(), r.w.Executing(), what, states))
 		}
 		r.notQuiescent++
 		if time.Now().After(deadline) {
@@ -582,7 +599,7 @@ func (r *runner) run() error {
 	c := r.c
 	r.pool = newPool(c.NodeMix, c.Providers)
 	r.sink = &sink{}
-	r.parked = map[int]string{}
+	r.parked = 0
 	r.series = map[string][]int{}
 	r.stale = map[uint64]bool{}
 	r.ctx = context.Background()
@@ -610,6 +627,7 @@ func (r *runner) run() error {
 	}
 	settle()
 	r.preParked = parkedSenders() // left behind by earlier cases of this process; part of the baseline
+	r.preParkedCount = parkedSenderCounts()
 	w := c03world.New(&c.P, pattern{c}, opt)
 	r.w = w
 	released := false
@@ -798,6 +816,7 @@ func check(t ev.TB, c *Case) {
 	ev.LabelN("epochs-run", int64(c.Epochs))
 	ev.LabelN("reorgs", int64(r.reorgs))
 	ev.LabelN("withdrawn-slots", int64(r.withdrawn))
+	ev.LabelN("stack-dumps", int64(r.dumps))
 	ev.LabelN("pending-check-found-world-not-quiescent", int64(r.notQuiescent))
 	if r.w != nil {
 		ev.LabelN("jobs-fired", int64(r.w.Fired()))
